@@ -15,6 +15,7 @@ from montepy.input_parser import input_syntax_reader, block_type, mcnp_input
 from montepy.input_parser.input_file import MCNP_InputFile
 from montepy.universes import Universes
 from montepy.transforms import Transforms
+from sly.lex import LexError
 import warnings
 
 
@@ -272,9 +273,34 @@ class MCNP_Problem:
                     obj_parser, obj_container = OBJ_MATCHER[input.block_type]
                     if len(input.input_lines) > 0:
                         try:
-                            obj = obj_parser(input)
+                            try:
+                                obj = obj_parser(input)
+                            except (
+                                MalformedInputError,
+                                NumberConflictError,
+                                UnknownElement,
+                                UnsupportedFeature,
+                            ):
+                                raise
+                            except (
+                                ValueError,
+                                TypeError,
+                                AttributeError,
+                                LookupError,
+                                LexError,
+                            ) as e:
+                                # Whatever the code that builds the object trips over in a
+                                # malformed input is an error of that input, not of MontePy's caller.
+                                raise MalformedInputError(
+                                    input,
+                                    f"Error parsing this input: {type(e).__name__}: {e}",
+                                ) from e
                             obj.link_to_problem(self)
                             obj_container.append(obj)
+                            if isinstance(obj, Material):
+                                self._materials.append(obj)
+                            if isinstance(obj, transform.Transform):
+                                self._transforms.append(obj)
                         except (
                             MalformedInputError,
                             NumberConflictError,
@@ -288,10 +314,6 @@ class MCNP_Problem:
                                 continue
                             else:
                                 raise e
-                        if isinstance(obj, Material):
-                            self._materials.append(obj)
-                        if isinstance(obj, transform.Transform):
-                            self._transforms.append(obj)
                     # comments at the end of a block stay in that block
                     if (
                         trailing_comment is not None
